@@ -496,3 +496,73 @@ proof! { #[kani::unwind(8)] fn c12_step_checkpoint_full_limits() { step_checkpoi
 proof! { #[kani::unwind(8)] fn c12_step_checkpoint_full_contents() { step_checkpoints(true, false); } }
 proof! { #[kani::unwind(8)] fn c12_step_checkpoint_transparent_limits() { step_checkpoints(false, true); } }
 proof! { #[kani::unwind(8)] fn c12_step_checkpoint_transparent_contents() { step_checkpoints(true, true); } }
+
+// ---- maybe_restore_with_node (value-preserving restore used by ENABLE_GC): a transparent checkpoint, then
+// 130 pairs (1040 bytes of savings, above MIN_SAVINGS) and a return value of each NodeStatus class
+fn step_maybe_restore(kind: u8) {
+    // (no symbolic ghost counts here: they would make the success of each of the 130 new_pair calls, and with
+    // it the pair vector's length and every reallocation, symbolic - measured: no result in 25 minutes)
+    let mut p = pre_with(Some((1, 4)), Some(1000), false);
+    let cp = p.a.transparent_checkpoint();
+    // the return value: 0 = node older than the checkpoint, 1 = new atom with new bytes (L symbolic bytes),
+    // 2 = new view of old bytes, 3 = new pair, 4 = inline small atom
+    let b: [u8; 5] = kani::any();
+    let ret = match kind {
+        0 => p.heap,
+        1 => { let r = p.a.new_atom(&b); kani::assume(r.is_ok()); r.unwrap() }
+        2 => { let r = p.a.new_substr(p.heap, 1, 5); kani::assume(r.is_ok()); r.unwrap() }
+        3 => { let r = p.a.new_pair(p.heap, p.small); kani::assume(r.is_ok()); r.unwrap() }
+        _ => p.small,
+    };
+    let mut i = 0;
+    let mut all = true;
+    while i < 130 {
+        all = all && p.a.new_pair(p.small, p.small).is_ok();
+        i += 1;
+    }
+    kani::assume(all);
+    let before = counts(&p.a);
+    let r = p.a.maybe_restore_with_node(&cp, ret);
+    let after = counts(&p.a);
+    match r {
+        Ok(m) => {
+            assert!(after.atoms == before.atoms && after.pairs == before.pairs && after.heap == before.heap,
+                "C12/value-preserving-restore-leaves-counts");
+            match m {
+                MaybeRestore::NoReplace => {
+                    assert!(kind == 0 || kind == 4, "C04/no-replace-only-for-nodes-that-survive");
+                }
+                MaybeRestore::Replace(n) => {
+                    assert!(kind == 1 || kind == 2, "C04/replace-only-for-invalidated-atoms");
+                    // the replacement has the same bytes as the original return value
+                    let at = p.a.atom(n);
+                    let s = at.as_ref();
+                    if kind == 1 {
+                        assert!(s.len() == 5, "C04/replacement-has-the-same-bytes");
+                        let mut j = 0;
+                        while j < 5 { assert!(s[j] == b[j], "C04/replacement-has-the-same-bytes"); j += 1; }
+                    } else {
+                        assert!(s.len() == 4, "C04/replacement-has-the-same-bytes");
+                        let mut j = 0;
+                        while j < 4 { assert!(s[j] == p.hb[1 + j], "C04/replacement-has-the-same-bytes"); j += 1; }
+                    }
+                }
+                MaybeRestore::Aborted => {
+                    assert!(kind == 3, "C04/abort-only-for-trees");
+                }
+            }
+        }
+        Err(_) => assert!(false, "C04/maybe-restore-never-fails-with-internal-error"),
+    }
+    kani::cover!(after.atoms == before.atoms, "restore decision taken with more than 1024 bytes of savings");
+    inv(&p);
+    if kind != 1 {
+        contents_unchanged(&p);
+    }
+    std::mem::forget(p);
+}
+proof! { #[kani::unwind(132)] fn c12_step_maybe_restore_before() { step_maybe_restore(0); } }
+proof! { #[kani::unwind(132)] fn c12_step_maybe_restore_new_bytes() { step_maybe_restore(1); } }
+proof! { #[kani::unwind(132)] fn c12_step_maybe_restore_old_bytes() { step_maybe_restore(2); } }
+proof! { #[kani::unwind(132)] fn c12_step_maybe_restore_pair() { step_maybe_restore(3); } }
+proof! { #[kani::unwind(132)] fn c12_step_maybe_restore_inline() { step_maybe_restore(4); } }
